@@ -255,3 +255,10 @@ C(f"{F}:TokenInfo.loc", params=TI, ensures=["keys_are(result, 'lineno', 'col_off
                                             "result['end_lineno'] == self.end[0] and result['end_col_offset'] == self.end[1]"],
   raises=[], pure=True, properties=["C04"])
 C(f"{F}:TokenInfo.is_next_to", params={**TI, "prev": "Tok"}, returns="bool", ensures=["result == (prev.end == self.start)"], raises=[], pure=True, properties=["C06"])
+
+# the constructor: exactly the initial state the executor's built-in model of `TokenizerState()` (contracts/shapes.py) gives other functions
+C(f"{F}:TokenizerState.__init__", params={"self": "obj:TokenizerState"},
+  ensures=["self.lnum == 0 and self.parenlev == 0 and not self.continued and self.pos == 0 and self.max == 0 and self.comment_lnum == 0",
+           "len(self.indents) == 1 and self.indents[0] == 0", "self.last_line == '' and self.line == ''", "len(self.end_progs) == 0"],
+  modifies=["self.lnum", "self.parenlev", "self.continued", "self.indents", "self.last_line", "self.comment_lnum", "self.line", "self.pos", "self.max", "self.end_progs"],
+  raises=[], properties=["C08", "C13"])
